@@ -211,6 +211,40 @@ def rule_p3(ctx, F):
         ctx.gate("P3", rm, raw, [("a plain array erase is used on finished_states only while no heap order exists", "self->finished_states_heap_size > 0", False)], accept_desc="array_erase on finished_states")
 
 
+def rule_p4(ctx, F):
+    """P4: the capture stream is in document order and complete: a capture of a finished match is
+    handed out only when it lies before every capture of an unfinished match (ties by pattern index),
+    every capture handed out is consumed, captures outside the range are skipped (not returned), and
+    the stream ends only when the search is exhausted and nothing finished is left."""
+    fn = ctx.need_fn(F, "ts_query_cursor_next_capture", "P4")
+    if not fn:
+        return
+    pick = [pt for pt, n in find(fn, "first_finished_state = state")]
+    ctx.floor("choices of a finished capture in ts_query_cursor_next_capture", len(pick), 1)
+    ctx.gate("P4", fn, pick, [("a finished capture is chosen only if it is not after the first unfinished capture", [("node_start_byte < first_finished_capture_byte", True), ("node_start_byte == first_finished_capture_byte", True)]),
+                              ("…at the same byte only for an earlier pattern", [("node_start_byte < first_finished_capture_byte", True), ("state->pattern_index < first_finished_pattern_index", True)]),
+                              ("…and only if it lies inside the cursor's range", "node_outside_of_range", False)], accept_desc="choosing the finished capture")
+    d = [x for i in fn.ids_named("first_finished_capture_byte") for x in fn.defs(i) if x is not None and x.get("k") != "uninit"]
+    if d and any(M(fn).match("first_unfinished_capture_byte", x) for x in d):
+        ctx.ok("P4", "ts_query_cursor_next_capture:bound-is-first-unfinished", "the bound a finished capture must beat starts as the first unfinished capture's byte")
+    else:
+        ctx.bad("P4", "ts_query_cursor_next_capture:bound-is-first-unfinished", "first_finished_capture_byte is no longer initialised from first_unfinished_capture_byte: finished captures are no longer compared with unfinished ones")
+    rets = [pt for pt, e in fn.points() if e.get("k") == "ret" and strip(e["e"]).get("k") == "int" and strip(e["e"]).get("v") == 1]
+    from C06 import incs
+    cons = incs(fn, "state->consumed_capture_count")
+    ctx.before("P4", "ts_query_cursor_next_capture:returned-capture-is-consumed", fn, rets, cons, "every capture handed out is marked consumed")
+    idx = [pt for pt, n in find(fn, "*capture_index = state->consumed_capture_count")]
+    ctx.before("P4", "ts_query_cursor_next_capture:index-before-consume", fn, rets, idx, "the returned capture index is the not-yet-consumed one")
+    skip = [pt for pt in cons if pt not in set()]  # all increments; the one not followed by `return true` is the skip
+    ends = [pt for pt, e in fn.points() if e.get("k") == "ret" and strip(e["e"]).get("k") == "int" and strip(e["e"]).get("v") == 0]
+    ctx.gate("P4", fn, ends, [("the stream ends only when the search is exhausted", "ts_query_cursor__advance(self, 1)", False), ("…and no finished match is left", "self->finished_states.size == 0", True)],
+             accept_desc="ending the capture stream")
+    rel = [pt for pt, n in find(fn, "finished_state_pop(&self->finished_states, &self->capture_list_pool)")]
+    ctx.gate("P4", fn, rel, [("a finished match is dropped only when all its captures were consumed", "state->consumed_capture_count >= captures->size", True)], accept_desc="dropping a finished match")
+    fix = [pt for pt, n in find(fn, "finished_state_sift_down(&self->finished_states, 0, &self->capture_list_pool)")]
+    ctx.floor("heap repairs after consuming from the root", len(fix), 2)
+
+
 def rule_rust(ctx):
     """Text predicates: each multi-chunk node text is assembled in a freshly cleared scratch buffer."""
     import rsrules
@@ -241,6 +275,7 @@ def run(ctx):
         rule_f1(ctx, F)
         rule_p2(ctx, F)
         rule_p3(ctx, F)
+        rule_p4(ctx, F)
     rule_rust(ctx)
     return ctx.finish(
         "Pairing and field-coverage rules over query.c: every discard of a query state under capture-list-pool exhaustion is preceded by "
